@@ -124,6 +124,8 @@ pub(crate) const COPTIC_ERA: EraInfo = valid_era!("coptic", 1..=i32::MAX);
 pub(crate) const COPTIC_INVERSE_ERA: EraInfo = valid_era!("coptic-inverse", 1..=i32::MAX);
 pub(crate) const DANGI_ERA: EraInfo = valid_era!("dangi", i32::MIN..=i32::MAX);
 pub(crate) const ETHIOPIC_ERA: EraInfo = valid_era!("ethiopic", 1..=i32::MAX);
+// NOTE: the era the calendrical code reports for the years before the incarnation era.
+pub(crate) const ETHIOPIC_INVERSE_ERA: EraInfo = valid_era!("ethiopic-inverse", 1..=i32::MAX);
 pub(crate) const ETHIOPIC_ETHIOAA_ERA: EraInfo = valid_era!("ethioaa", i32::MIN..=5500);
 pub(crate) const ETHIOAA_ERA: EraInfo = valid_era!("ethioaa", i32::MIN..=i32::MAX);
 // NOTE: the calendrical code knows the two Gregorian eras as "ce" and "bce".
